@@ -218,9 +218,10 @@ CHECKS = {
   "harnesses": [doc("VerifH_StaticChecks", {"K": 3, "MENU": 0}, {"K": 4, "MENU": 0}),
                 doc("VerifH_StaticChecks", {"K": 4, "MENU": 1}, {"K": 5, "MENU": 1}, full_schema_lib=True),
                 doc("VerifH_StaticChecks", {"K": 2, "MENU": 2}, {"K": 3, "MENU": 2}, full_schema_lib=True),
-                ATTRIB],
+                ATTRIB,
+                {"pkg": "core", "fn": "VerifH_SimilarPaths", "quick": {"N": 4}, "thorough": {"N": 6}}],
   "assumptions": DOC_ASSUME + ["fault predicates (refFaults): duplicate TYPE / SERVER / TAG name, same URL path twice, same method on the same path twice, second Title / Version / Description / Protocol / BaseUrl under one parent, Tags naming a tag no TAG directive declares (when some method uses that Tags directive)"],
-  "not_decided": DOC_NOT + ["dangling references other than user types named by a response body / array item / allOf rule (enum references, Path / Query / Headers / Request bodies)", "faults injected through INCLUDE", "required-parameter faults (the templates always carry their parameters)", "paths differing only in a parameter name"],
+  "not_decided": DOC_NOT + ["dangling references other than user types named by a response body / array item / allOf rule (enum references, Path / Query / Headers / Request bodies)", "faults injected through INCLUDE", "required-parameter faults (the templates always carry their parameters)", "similar paths beyond one registered path from a 5-entry menu against one symbolic path of N bytes over / { } a b"],
  },
  "C12": {
   "title": "allOf inheritance",
